@@ -127,6 +127,10 @@ def rand_config(rnd, kind=None):
 
 
 def build(cfg):
+    if cfg.get("gram"):
+        import ugram
+
+        return ugram.build(cfg)
     pack = make_pack(
         cfg["mode"], cfg["inferral"], cfg["symmetry"], cfg["iterative"], cfg["factory"], cfg["prefver"],
         known=([""] if cfg["reverse_needed"] else (len(cfg["alpha"]) + 1 if cfg["sep"] == "reverse" else None)),
